@@ -61,7 +61,8 @@ def main(argv):
             mod.setup(ctx)
         if replay:
             rec = json.load(open(replay))
-            run_one(mod, ctx, rec['check'], rec['case'])
+            if rec['check'] != 'suite':  # 'suite' replays are run by the CLI (pvmon.suite)
+                run_one(mod, ctx, rec['check'], rec['case'])
         else:
             for check, case in mod.generate(ctx):
                 run_one(mod, ctx, check, case)
